@@ -51,6 +51,8 @@ type nativeBuild struct {
 	root    string
 	names   []string
 	race    bool
+	raceBin string // built on demand when a race-kind counterexample has to be confirmed and the main binary is not -race
+	useRace bool
 }
 
 func (nb *nativeBuild) overlayFiles() map[string]string {
@@ -105,6 +107,25 @@ func (nb *nativeBuild) build() error {
 	return nb.err
 }
 
+// buildRace builds the replay binary once more with the race detector (same overlay).
+func (nb *nativeBuild) buildRace() error {
+	if nb.raceBin != "" || nb.race {
+		return nil
+	}
+	if err := nb.build(); err != nil {
+		return err
+	}
+	bin := filepath.Join(nb.scratch, "replay-race.test")
+	cmd := exec.Command("go", "test", "-c", "-vet=off", "-race", "-overlay", filepath.Join(nb.scratch, "overlay.json"), "-o", bin, "./internal/verifh")
+	cmd.Dir = repoDir()
+	cmd.Env = append(os.Environ(), "GOFLAGS=-mod=mod", "GOPROXY=off", "GOSUMDB=off", "GOTOOLCHAIN=local")
+	if out, err := cmd.CombinedOutput(); err != nil {
+		return fmt.Errorf("native race build failed: %v\n%s", err, out)
+	}
+	nb.raceBin = bin
+	return nil
+}
+
 func (nb *nativeBuild) cleanup() {
 	if nb.scratch != "" {
 		os.RemoveAll(nb.scratch)
@@ -116,7 +137,11 @@ func (nb *nativeBuild) run(path string, timeout time.Duration) *NativeResult {
 	res := &NativeResult{Tries: 1}
 	ctx, cancel := context.WithTimeout(context.Background(), timeout)
 	defer cancel()
-	cmd := exec.CommandContext(ctx, nb.bin, "-test.run", "^TestReplay$", "-test.count=1")
+	bin := nb.bin
+	if nb.useRace && nb.raceBin != "" {
+		bin = nb.raceBin
+	}
+	cmd := exec.CommandContext(ctx, bin, "-test.run", "^TestReplay$", "-test.count=1")
 	cmd.Dir = nb.scratch
 	cmd.Env = append(os.Environ(), "VERIF_REPLAY="+path)
 	var buf bytes.Buffer
@@ -161,6 +186,12 @@ func (nb *nativeBuild) run(path string, timeout time.Duration) *NativeResult {
 // confirm replays a violation natively; reproduced iff the native run fails in the same way.
 func (nb *nativeBuild) confirm(rf *ReplayFile, path string, tries int) *NativeResult {
 	var last *NativeResult
+	if rf.Kind == "race" && !nb.race {
+		if err := nb.buildRace(); err == nil {
+			nb.useRace = true
+			defer func() { nb.useRace = false }()
+		}
+	}
 	for i := 1; i <= tries; i++ {
 		r := nb.run(path, 60*time.Second)
 		r.Tries = i
